@@ -284,3 +284,98 @@ def history(level="1.5"):
         return {"reproduced": False, "steps": len(steps)}
     finally:
         shutil.rmtree(root, ignore_errors=True)
+
+
+def typed_tree(level="1.5", pols=("HH",), scans=(None,)):
+    """open a synthesised product and compare what every variable ADVERTISES (dtype, shape) with what loading gives; type discipline"""
+    import ceos_alos2
+
+    def plain(v):
+        if v is None or isinstance(v, (bool, int, float, complex, str, np.generic)):
+            return True
+        if isinstance(v, (list, tuple)):
+            return all(plain(e) for e in v)
+        if isinstance(v, np.ndarray):
+            return v.dtype.kind in "biufcMmU"
+        return False
+
+    def run(root, datas):
+        bad = []
+        tree = ceos_alos2.open_alos2(root, backend_options={"use_cache": False, "records_per_chunk": 2})
+        try:
+            repr(tree)
+        except Exception as e:  # noqa: BLE001
+            bad.append(f"repr(tree) raised {type(e).__name__}: {str(e)[:80]}")
+        for node in tree.subtree:
+            ds = node.to_dataset()
+            try:
+                ds.nbytes
+            except Exception as e:  # noqa: BLE001
+                bad.append(f"{node.path}: nbytes raised {type(e).__name__}: {str(e)[:80]}")
+            for k, v in ds.attrs.items():
+                if not plain(v):
+                    bad.append(f"{node.path}@{k}: attribute of type {type(v).__name__}")
+            for name, var in ds.variables.items():
+                declared_dtype, declared_shape = var.dtype, var.shape
+                if not isinstance(declared_dtype, np.dtype):
+                    bad.append(f"{node.path}/{name}: declared dtype {declared_dtype!r} is not a numpy dtype")
+                    continue
+                vals = np.asarray(var.values)
+                if vals.dtype.newbyteorder("=") != np.dtype(declared_dtype).newbyteorder("=") or vals.shape != tuple(declared_shape):
+                    bad.append(f"{node.path}/{name}: declared {declared_dtype}{declared_shape}, loaded {vals.dtype}{vals.shape}")
+                if vals.dtype.kind not in "biufcMmU":
+                    bad.append(f"{node.path}/{name}: dtype kind {vals.dtype.kind!r} ({str(vals.flat[0])[:40] if vals.size else ''})")
+                for k, v in var.attrs.items():
+                    if not plain(v):
+                        bad.append(f"{node.path}/{name}@{k}: attribute of type {type(v).__name__}")
+        return {"reproduced": bool(bad), "detail": bad[:6]}
+
+    return with_product(run, level=level, n=3, p=2, pols=pols, scans=scans)
+
+
+def indexing_kinds(level="1.5", rpc=2, n=5, m=4):
+    """every kind of indexing xarray accepts on the lazy image vs the same operation on the loaded image (shape, dims, coords, values, dtype)"""
+    import xarray as xr
+
+    import ceos_alos2
+
+    def run(root, datas):
+        tree = ceos_alos2.open_alos2(root, backend_options={"use_cache": False, "records_per_chunk": rpc})
+        lazy = tree["imagery/HH"].to_dataset()["data"]
+        full = lazy.load().copy() if False else tree["imagery/HH"].to_dataset()["data"].copy(deep=True).load()
+        pts = xr.DataArray([0, n - 1, 2], dims="points")
+        ptc = xr.DataArray([m - 1, 0, 1], dims="points")
+        keys = [
+            dict(rows=[0, 2], columns=[1, 3]), dict(rows=[n - 1, 0], columns=slice(None)), dict(rows=slice(None, None, -1), columns=slice(None, None, -2)),
+            dict(rows=np.array([True, False] * (n // 2) + [True] * (n % 2)), columns=np.array([False, True] * (m // 2) + [True] * (m % 2))),
+            dict(rows=pts, columns=ptc), dict(rows=pts), dict(columns=ptc), dict(rows=-1, columns=slice(1, 2)), dict(rows=slice(2, 2), columns=slice(1, 3)),
+            dict(rows=slice(3, 1), columns=0), dict(rows=[1, 1, 1], columns=-1), dict(rows=slice(4, 0, -2)), dict(rows=2, columns=[0]), dict(rows=xr.DataArray([[0, 1], [2, 3]], dims=("a", "b"))),
+        ]
+        bad = []
+        for key in keys:
+            try:
+                want = full.isel(**key)
+            except Exception:  # noqa: BLE001
+                continue
+            try:
+                got = lazy.isel(**key)
+                gv = got.values
+            except Exception as e:  # noqa: BLE001
+                bad.append(f"isel({_short(key)}) raised {type(e).__name__}: {str(e)[:80]}")
+                continue
+            if got.dims != want.dims or got.shape != want.shape or gv.shape != want.values.shape:
+                bad.append(f"isel({_short(key)}): declared {got.dims}{got.shape}, loaded {gv.shape}, expected {want.dims}{want.shape}")
+            elif not np.array_equal(gv, want.values) or gv.dtype.newbyteorder("=") != want.values.dtype.newbyteorder("="):
+                bad.append(f"isel({_short(key)}): values/dtype differ")
+            elif set(got.coords) != set(want.coords) or any(not np.array_equal(got.coords[c].values, want.coords[c].values) for c in want.coords):
+                bad.append(f"isel({_short(key)}): coordinates differ")
+        name, d = next(iter(datas.items()))
+        if not np.array_equal(full.values, d):
+            bad.append("fully loaded image differs from the synthesised samples")
+        return {"reproduced": bool(bad), "detail": bad[:6], "keys": len(keys)}
+
+    return with_product(run, level=level, n=n, p=m, pols=("HH",))
+
+
+def _short(key):
+    return ", ".join(f"{k}={(v.values.tolist() if hasattr(v, 'values') else v)!r}" for k, v in key.items())[:100]
